@@ -492,6 +492,17 @@ def c14(tier, seed):
                                                        "XMIN": -2, "XMAX": 6, "WMIN": -3, "WMAX": 6}, timeout=1200)
     v.add_tlc(g)
     v.exhaustive = True
+    # the same pairs inside an open layer (translucent, or with an erasing blend): a fast path must draw into the layer
+    # exactly as the general route does, not onto the surface underneath
+    inlayer = []
+    for k, sc in enumerate(scs[seed % 5::5]):
+        lay = {"op": "push_layer", "opacity": [1, 2]} if k % 2 == 0 else {"op": "push_layer", "opacity": [1, 1], "blend": ("Xor", "Src", "Multiply")[k % 3]}
+        w = dict(sc)
+        w["id"] = str(sc["id"]) + "-inlayer"
+        w["a"] = [lay] + list(sc["a"]) + [{"op": "pop_layer"}]
+        w["b"] = [lay] + list(sc["b"]) + [{"op": "pop_layer"}]
+        inlayer.append(w)
+    scs += inlayer
     routes_validate("C14", v, scs, "all")
     v.samples = [scs[0], scs[len(scs) // 3], scs[-1]]
     return v.finish()
